@@ -1,48 +1,67 @@
 #!/usr/bin/env python3
-"""Copy confirmed seeded changes (from the sub-agents' output directories) into /verif/seeded/<property>-m<k>/ with a meta.json
-built from tools/eval_seeded.py's result; regenerates seeded/README.md."""
+"""Copy confirmed seeded changes (from the sub-agents' output directories) into /verif/seeded/<property>-<round>m<k>/ with a
+meta.json built from tools/eval_seeded.py's result, then regenerate seeded/README.md from all meta.json files.
+usage: tools/collect_seeded.py [/tmp/wt]   (expects <src>/results/Cxx_[rN]mK.json, optionally first_Cxx_[rN]mK.json = evaluation
+before the checks were strengthened)"""
 import json, os, shutil, sys, glob
 
 V = os.path.dirname(os.path.dirname(os.path.abspath(__file__)))
 SRC = sys.argv[1] if len(sys.argv) > 1 else '/tmp/wt'
-rows = []
-for res in sorted(glob.glob(os.path.join(SRC, 'results', 'C*_m*.json'))):
+for res in sorted(glob.glob(os.path.join(SRC, 'results', 'C[0-9][0-9]_*m[0-9].json'))):
     try:
         r = json.load(open(res))
     except Exception:
         continue
     pid = r['property']
-    name = os.path.basename(res)[:-5].replace('_', '-')
+    base = os.path.basename(res)[:-5]
+    name = base.replace('_', '-')
     src = r['dir']
     confirmed = r.get('demo_without_patch') == 0 and r.get('demo_with_patch') == 1 and r.get('tests_pass')
     if not confirmed:
-        rows.append((name, pid, 'NOT KEPT (demonstration or tests not confirmed)', '', ''))
         continue
     dst = os.path.join(V, 'seeded', name)
     os.makedirs(dst, exist_ok=True)
     for f in ('patch.diff', 'demo.py', 'notes.md'):
         if os.path.exists(os.path.join(src, f)):
             shutil.copy(os.path.join(src, f), os.path.join(dst, f))
-    notes = open(os.path.join(src, 'notes.md')).read() if os.path.exists(os.path.join(src, 'notes.md')) else ''
+    notes = open(os.path.join(dst, 'notes.md')).read() if os.path.exists(os.path.join(dst, 'notes.md')) else ''
     chk = r.get(f'check_{pid}', {})
+    first = None
+    fp = os.path.join(SRC, 'results', 'first_' + base + '.json')
+    if os.path.exists(fp):
+        try:
+            first = json.load(open(fp)).get(f'check_{pid}', {}).get('exit')
+        except Exception:
+            first = None
     meta = {
         'property': pid,
         'origin': 'independent sub-agent given only the property text and a scratch worktree of /repo (nothing from /verif)',
-        'needs_to_manifest': notes.strip().split('\n\n')[1][:600] if '\n\n' in notes.strip() else notes[:600],
+        'needs_to_manifest': ' '.join(notes.strip().split())[:700],
         'confirmed_by': {'applies_with': 'git apply patch.diff (scratch worktree of /repo at HEAD)', 'test_suite_with_patch': r.get('tests'),
                          'demo_exit_without_patch': r.get('demo_without_patch'), 'demo_exit_with_patch': r.get('demo_with_patch')},
         'what_was_run': f'tools/eval_seeded.py <dir> {pid}: ./check {pid} --tier quick with VERIF_REPO=<scratch worktree with the patch applied>',
         'check_result': {'exit': chk.get('exit'), 'wall_s': chk.get('wall_s'), 'first_violation': chk.get('first'), 'summary': chk.get('summary')},
         'detected': chk.get('exit') == 1,
-        'other_checks': {k[6:]: v.get('exit') for k, v in r.items() if k.startswith('check_') and k != f'check_{pid}'},
     }
+    if first is not None:
+        meta['exit_before_strengthening'] = first
     json.dump(meta, open(os.path.join(dst, 'meta.json'), 'w'), indent=1)
-    rows.append((name, pid, 'detected (exit 1)' if meta['detected'] else f"NOT detected (exit {chk.get('exit')})", chk.get('first', '')[:140], ''))
+rows = []
+for mf in sorted(glob.glob(os.path.join(V, 'seeded', '*', 'meta.json'))):
+    m = json.load(open(mf))
+    name = os.path.basename(os.path.dirname(mf))
+    c = m['check_result']
+    verdict = 'detected (exit 1)' if m['detected'] else f"NOT detected (exit {c.get('exit')})"
+    if 'exit_before_strengthening' in m and m['exit_before_strengthening'] != 1:
+        verdict += f" [first evaluation: exit {m['exit_before_strengthening']}]"
+    rows.append((name, m['property'], verdict, (c.get('first_violation') or '')[:140]))
 with open(os.path.join(V, 'seeded', 'README.md'), 'w') as f:
     f.write('# Seeded changes\n\nEach directory holds a change to andykee/lentil written by an independent sub-agent that saw only the property text '
             '(patch.diff), its demonstration (demo.py exits 1 with the patch, 0 without), the agent\'s notes and meta.json (what it needs to manifest, what was run, '
             'what the property\'s check said). None of these patches is ever committed to /repo. Re-run one with\n\n'
-            '    tools/eval_seeded.py seeded/<name> <property>\n\n| change | property | quick check | first violation reported |\n|---|---|---|---|\n')
-    for name, pid, verdict, first, _ in rows:
+            '    tools/eval_seeded.py seeded/<name> <property>\n\n'
+            f'{sum(1 for r in rows if r[2].startswith("detected"))} of {len(rows)} are reported as violations by the quick check of their property.\n\n'
+            '| change | property | quick check | first violation reported |\n|---|---|---|---|\n')
+    for name, pid, verdict, first in rows:
         f.write(f'| {name} | {pid} | {verdict} | {first.replace("|", "/")} |\n')
-print(len(rows), 'rows')
+print(len(rows), 'rows,', sum(1 for r in rows if r[2].startswith('detected')), 'detected')
